@@ -212,6 +212,7 @@ pub fn gen_batch_case(check: &str, seed: u64, family: &str, tier: Tier, with_fil
         simcfg.io_fault_rate = *r.pick(&[0.02, 0.1, 0.3]);
         simcfg.fault_paths = vec!["/sim/out".into()];
     }
+    let n_runs_made = batches.len();
     Case {
         check: check.to_string(),
         seed,
@@ -226,10 +227,18 @@ pub fn gen_batch_case(check: &str, seed: u64, family: &str, tier: Tier, with_fil
             // the language-binding interface (built from a TOML text, queries and responses as JSON strings) in one
             // case of seven - a stream of its own, the other knobs stay as they were
             let via_bindings = Rng::new(seed ^ fnv64("bindings")).chance(0.15);
-            match (two_callers, via_bindings) {
+            // round 9: every run() call of a case may ask for a parallelism of its own (a first call with few
+            // workers, a later one with many, or the other way round)
+            let mut r9 = Rng::new(seed ^ fnv64("parallelism-per-run"));
+            let per_run: Option<Vec<Value>> = if n_runs_made >= 2 && r9.chance(0.35) { Some((0..n_runs_made).map(|_| if r9.chance(0.25) { Value::Null } else { json!(r9.range(1, 16)) }).collect()) } else { None };
+            match (two_callers, via_bindings || per_run.is_some()) {
                 (false, false) => Value::Null,
-                (t, b) => {
+                (t, _) => {
+                    let b = via_bindings;
                     let mut m = serde_json::Map::new();
+                    if let Some(p) = per_run {
+                        m.insert("run_parallelism_per_run".into(), Value::Array(p));
+                    }
                     if t {
                         m.insert("two_callers".into(), json!(true));
                     }
